@@ -44,6 +44,11 @@ def window_sessions(rnd, n, thorough):
         mids = [R([(b["name"], [])], count=max(1, min(b["dims"][0], rnd.choice([S0 // 40, S0 // 8, S0 // 3])))) for b in big for _ in range(3)]
         calls.append(S.read_call(mids))
         calls.append({"api": "close"})
+        if i % 7 == 3:
+            # the target refuses every Forward Open at first (busy) and admits connections later: the size in force is the
+            # one negotiated by the Forward Open that finally succeeded
+            sc["target"]["policy"] = "AllRefused"
+            calls = [{"api": "open"}, {"api": "_env", "intent": {"policy": pol}}] + calls
         sc["calls"] = calls
         sc["family"] = "logix-window-%d" % S0
         sc["target"]["caps"] = [rnd.choice([1, 2, 3, 7, 99, 100, 333, S0 - 8, S0 - 9, S0]) for _ in range(rnd.choice([0, 4, 30]))]
